@@ -1149,6 +1149,10 @@ class ClassNode(AstNode, NamespaceMixin):
             self.wrap_as = self.options.wrap_class_as
         else:
             raise RuntimeError("parse_keyword must be 'class' or 'struct'")
+        if self.wrap_as not in ["class", "struct"]:
+            raise RuntimeError(
+                "option wrap_{}_as must be 'class' or 'struct', found '{}'"
+                .format(self.parse_keyword, self.wrap_as))
         if ntypemap is not None:
             # From YAML typemap
             self.typemap = ntypemap
